@@ -18,6 +18,7 @@ type propSpec struct {
 	Title        string
 	TestPkg      string // package directory (relative to /repo) the worker binary is built from
 	HarnessDir   string // directory under /verif/harness
+	HarnessExtra []string // further harness directories (shared helpers)
 	Weave        []weave.PkgConfig
 	ExtraPkgs    []extraPkg
 	QuickSecs    int // wall-clock budget of the simulation phase
@@ -39,7 +40,31 @@ var commonAssumptions = []string{
 	"sampling, not enumeration: a clean batch is evidence, not proof",
 }
 
+var glyphServerWeave = []weave.PkgConfig{
+	{Path: "./cmd/glyph"},
+	{Path: "./pkg/server", Touch: true},
+	{Path: "./pkg/websocket"},
+	{Path: "./pkg/interpreter"},
+	{Path: "./pkg/vm"},
+}
+
 var specs = map[string]*propSpec{
+	"C11": {
+		ID: "C11", Title: "rate limits bound admitted traffic per client",
+		TestPkg: "cmd/glyph", HarnessDir: "C11", HarnessExtra: []string{"glyphcommon"},
+		Weave:     glyphServerWeave,
+		QuickSecs: 45, ThoroughSecs: 600, Chunk: 100,
+		Rule: "each run draws a declared limit (N in 1..200, unit sec/min/hour/day, or the middleware driven directly with trust-proxy settings), an execution mode, 1-5 clients with their own arrival processes (bursts, steady streams at 0.2-3x the rate, on/off, long idle gaps, conforming streams), forged forwarding headers and up to 4 requests in flight, all on the simulated clock; a run is non-trivial if at least two tasks were runnable at once and a preemption happened, or a fault fired; distinct = distinct fingerprints (schedule hash combined with workload and fault tapes) among the non-trivial runs",
+		Components: []component{
+			{"parser, compiler, setupRoutes, createHandler, routeMiddlewares (cmd/glyph)", "real-woven", "L0"},
+			{"pkg/server RateLimitMiddleware, getClientIP, cleanup goroutine", "real-woven", "L0 + race probes"},
+			{"interpreter / VM executing the marker route body", "real-woven", "L0"},
+			{"pkg/websocket hub started by setupRoutes", "real-woven", "idle"},
+			{"TCP sockets / net/http server loop", "stub", "handler invoked directly with httptest request and recorder"},
+			{"clock, tickers", "stub", "testing/synctest fake clock moved only by the simulator"},
+		},
+		FaultKinds: []string{"clock-jump"},
+	},
 	"C20": {
 		ID: "C20", Title: "the cache behaves as a bounded LRU map",
 		TestPkg: "pkg/cache", HarnessDir: "C20",
